@@ -230,7 +230,7 @@ def run_crash(desc, seed):
             level += 1
     finally:
         shutil.rmtree(root, ignore_errors=True)
-    return {"nt_count": nontriv, "counters": {"crash_executions": executions, "abstract_directory_states": len(seen), "bfs_levels": level},
+    return {"nt_count": nontriv, "eval_count": executions, "counters": {"crash_executions": executions, "abstract_directory_states": len(seen), "bfs_levels": level},
             "states": len(seen), "transitions": transitions, "outcome": f"crash:{dump_mps}:{nsteps}:{'viol' if viol else 'ok'}",
             "viol": list(viol.values()), "sample": {"desc": desc, "directory_states": [list(k) for k in seen], "crash_executions": executions}}
 
